@@ -81,6 +81,12 @@ def check(repo: Repo, rep: Report) -> None:
     for rel_, q_ in (("reactivex/observable/groupedobservable.py", "GroupedObservable.__init__.subscribe"),
                      ("reactivex/observable/groupedobservable.py", "GroupedObservable._subscribe_core")):
         TC.rule_scheduler_forwarded(rep, "F0-scheduler-forwarded", repo.fn(rel_, q_))
+    TC.rule_fanout_loops(rep, "G3-terminal-fan-out", root)
+    TC.pipelines_exact(repo, rep, "G2-expiry", {(GBU, "group_by_until_"): [["take"]]})
+    tk = [n for n in root.all_nodes() if isinstance(n, ast.Call) and call_name(n) == "take"]
+    rep.ob("G2-expiry", root, "the duration sequence is observed through take(1): its first element *or* its completion expires the group",
+           len(tk) == 1 and [u(a) for a in tk[0].args] == ["1"],
+           "the duration sequence is not cut with take(1): a duration that completes without an element does not expire the group (or fails it)")
     sl = signature(model_of(repo), root)["source#0"]
     for slot, pat, kind in (("on_error", r"^e*E$", "error"), ("on_completed", r"^c*C$", "completion")):
         v = sl[slot]
